@@ -24,8 +24,11 @@ type SingleCfg struct {
 func DrawShapeN(t *rapid.T, minRank, maxRank, maxDim, maxElems int, distinct bool) []int {
 	// a tenth of the shapes may have long dimensions (up to 40) and up to 4x the elements:
 	// carries past small sizes, thresholds of size-dependent code paths
-	if maxElems >= 250 && rapid.IntRange(0, 9).Draw(t, "bigshape") == 0 {
-		maxDim, maxElems = 40, maxElems*4
+	if maxElems >= 100 && rapid.IntRange(0, 9).Draw(t, "bigshape") == 0 {
+		maxDim = 70
+		if maxElems >= 250 {
+			maxElems *= 4
+		}
 		if maxRank > 3 {
 			maxRank = 3
 		}
@@ -265,6 +268,18 @@ func GenSingle(t *rapid.T, op string, cfg SingleCfg) Program {
 		m := rapid.IntRange(1, 4).Draw(t, "m")
 		k := rapid.IntRange(1, 4).Draw(t, "k")
 		p := rapid.IntRange(1, 4).Draw(t, "p")
+		if rapid.IntRange(0, 7).Draw(t, "longdim") == 0 {
+			long := rapid.SampledFrom([]int{16, 17, 31, 32, 33, 48, 64, 65}).Draw(t, "long")
+			switch rapid.IntRange(0, 2).Draw(t, "which") {
+			case 0:
+				m = long
+			case 1:
+				k = long
+			default:
+				p = long
+			}
+			batch = DrawShapeN(t, 0, 1, 2, 2, false)
+		}
 		if maxBatch >= 2 && rapid.IntRange(0, 9).Draw(t, "bigbatch") == 0 {
 			batch = DrawShapeN(t, 2, maxBatch, 8, 160, true)
 			m, k, p = rapid.IntRange(1, 2).Draw(t, "m2"), rapid.IntRange(1, 2).Draw(t, "k2"), rapid.IntRange(1, 2).Draw(t, "p2")
